@@ -939,8 +939,9 @@ def _map_func_over_core_dims(
     Must accept original (unpadded) args in order to get depth of overlap correct.
     """
 
-    from dask.array import Array as dask_Array  # type: ignore
     from dask.array import map_overlap as dask_map_overlap  # type: ignore
+    from dask.array.core import unify_chunks  # type: ignore
+    from dask.array.overlap import overlap as dask_overlap  # type: ignore
 
     # Width of the overlap along each core dim of each argument, in the order of that argument's core dims.
     # Inside mapped_func (i.e. after xr.apply_ufunc has done its transposition) an argument's core dims are its
@@ -960,28 +961,35 @@ def _map_func_over_core_dims(
             {arr.ndim - len(widths) + i: tuple(width) for i, width in enumerate(widths)}
             for arr, widths in zip(a, widths_per_arg)
         ]
-        overlapped = dask_map_overlap(
+        # Left to itself dask declares the chunks of its first argument as the chunks of the result, but that argument
+        # can lack a dimension of the result (or only have the length-1 axis xr.apply_ufunc inserted in its place) and
+        # func trims off what the padding / overlap added, so we work out the blocks of the result ourselves.
+        # First dask aligns all arguments to common chunks, counting axes from the last one:
+        aligned_chunks, aligned = unify_chunks(
+            *(x for arr in a for x in (arr, tuple(range(arr.ndim))[::-1])), warn=False
+        )
+        ndim = max(arr.ndim for arr in aligned)
+        true_chunks = [aligned_chunks[ndim - 1 - axis] for axis in range(ndim)]
+        # then it merges chunks narrower than the overlap and attaches the overlap to each block, after which func
+        # makes every block shorter by the lower plus the upper width again (we disallowed axis positions for which
+        # this is not the case). An argument of the highest rank has all the core dims of the result.
+        first = max(range(len(a)), key=lambda i: aligned[i].ndim)
+        with_overlap = dask_overlap(aligned[first], depth=depth[first], boundary="none")
+        n_core = len(widths_per_arg[first])
+        for i, (lower, upper) in enumerate(widths_per_arg[first]):
+            axis = ndim - n_core + i
+            true_chunks[axis] = tuple(
+                block - lower - upper for block in with_overlap.chunks[axis]
+            )
+        return dask_map_overlap(
             func,
             *a,
             **kw,
             depth=depth,
             boundary="none",
             trim=False,
+            chunks=tuple(true_chunks),
             meta=np.array([], dtype=out_dtypes[0]),
-        )
-        # dask may have aligned or re-chunked the arguments, so only now do we know the blocks it really mapped over.
-        # It reports the chunks of the (padded) first argument, but func trims off what the padding / overlap added
-        # (we disallowed axis positions for which this is not the case): the first block along each core dim is
-        # shorter by the lower width and the last one by the upper width.
-        true_chunks = list(overlapped.chunks)
-        for i, (lower, upper) in enumerate(widths_per_arg[0]):
-            axis = overlapped.ndim - len(widths_per_arg[0]) + i
-            blocks = list(true_chunks[axis])
-            blocks[0] -= lower
-            blocks[-1] -= upper
-            true_chunks[axis] = tuple(blocks)
-        return dask_Array(
-            overlapped.dask, overlapped.name, tuple(true_chunks), meta=overlapped
         )
 
     return mapped_func
